@@ -87,6 +87,14 @@ def build(tier: str) -> List[Cond]:
                 conds.append(Cond(oid=f"edit/{tpl}/{kind}@{pos}", clause="single-edit mutant of a valid string parses or raises ValueError",
                                   module="vf.h.c09", func="o_edit", shape=dict(template=tpl, pos=pos, kind=kind), sym=sym, pre=pre, timeout=t,
                                   functions=FUNCS[:10], bounds=f"template {tpl!r}, position {pos}, edited-in character over all of Unicode"))
+    # valid strings continued by one or two characters of the notation alphabet (multipliers, charges, brackets opened late ...)
+    NOTATION = "[](){}<>?-+/^@#|:,.0123456789P"
+    for tpl in (["PE/2[+Na+]", "{a}[b]?[c]-P(E)[d]-[e]", "<13C><[1]@P>P"] if tier == "quick" else templates + ["PE/2[+Na+]", "{a}[b]?[c]-P(E)[d]-[e]", "<13C><[1]@P>P"]):
+        for first in NOTATION[:20] + "2P":
+            conds.append(Cond(oid=f"suffix/{tpl}/first={first}", clause="a valid string continued by up to two notation characters parses or raises ValueError",
+                              module="vf.h.c09", func="o_suffix", shape=dict(template=tpl), sym=[("tail", "str")],
+                              pre=["1 <= len(tail) <= 2", f"tail[0] == {first!r}", f"all(c in {NOTATION!r} for c in tail)"], timeout=t,
+                              functions=FUNCS[:10], bounds=f"template {tpl!r} + {first!r} + at most one more character of the 31-character notation alphabet"))
     for tail in ("", "q", "zx"):
         # static rules reach the regex C extension (condense_static_mods): the value is part of the shape there
         conds.append(Cond(oid=f"deferred/static/tail={tail or '-'}", clause="unresolvable modification parses; mass/comp raise a ValueError-family error",
